@@ -61,8 +61,9 @@ pub fn dispatch(f: &[&str]) -> String {
             // f[1] subject, f[2] message id, f[3] extra (in-reply-to, references, user agent, comments, X-Custom), f[4] display name, f[5] file name, f[6] content id
             let (Some(subj), Some(mid), Some(extra), Some(dname), Some(fname), Some(cid)) = (s(f[1]), s(f[2]), s(f[3]), s(f[4]), s(f[5]), s(f[6])) else { return "invalid-utf8".into() };
             use lettre::message::{Attachment, Mailbox, MultiPart, SinglePart};
-            let from = Mailbox::new(Some(dname), "a@x.example".parse().unwrap());
-            let b = lettre::Message::builder().from(from).to("b@y.example".parse().unwrap()).subject(subj).message_id(Some(mid))
+            let from = Mailbox::new(Some(dname.clone()), "a@x.example".parse().unwrap());
+            let sender = Mailbox::new(Some(dname), "s@x.example".parse().unwrap());
+            let b = lettre::Message::builder().from(from).sender(sender).to("b@y.example".parse().unwrap()).subject(subj).message_id(Some(mid))
                 .in_reply_to(extra.clone()).references(extra.clone()).user_agent(extra.clone()).header(header::Comments::from(extra.clone()))
                 .header(XCustom(extra))
                 .date(UNIX_EPOCH + Duration::from_secs(1_700_000_000));
@@ -82,6 +83,13 @@ pub fn dispatch(f: &[&str]) -> String {
             }
             b = b.to("b@y.example".parse().unwrap());
             match b.body(String::from("x")) { Ok(m) => format!("ok\t{}", m.formatted().len()), Err(e) => format!("err\t{e}") }
+        }
+        "c19.msg_rcpts" => {
+            // a message whose To field holds the given (long) mailbox list: the envelope is derived from the headers by the builder
+            let Some(to) = s(f[1]) else { return "invalid-utf8".into() };
+            let Ok(m) = to.parse::<lettre::message::Mailboxes>() else { return "unparseable".into() };
+            let r = lettre::Message::builder().from("a@x.example".parse().unwrap()).mailbox(header::To::from(m)).body(String::from("x"));
+            match r { Ok(m) => format!("ok\t{}", m.envelope().to().len()), Err(e) => format!("err\t{e}") }
         }
         "c19.from_empty" => {
             // a From header holding an empty mailbox list
